@@ -192,11 +192,13 @@ def run(ctx):
         ok = len(rm) == 1
         det = ""
         if ok:
-            br = wire.enclosing_branches(f, rm[0])
-            det = str([(norm_text(i.test), t) for i, t in br])
-            ok = len(br) == 1 and br[0][1] and norm_text(br[0][0].test).replace(" ", "") in ("overwriteandos.path.exists(file_path)", "os.path.exists(file_path)andoverwrite") and norm_text(rm[0].args[0]) == "file_path"
+            pcs = [c_ for c_ in wire.path_conds(f, rm[0]) if not (c_[0] in ("file_dir", "not os.path.exists(file_dir)", "os.path.exists(file_dir)") )]   # (the directory guard that precedes is judged below)
+            det = str(pcs)
+            # exactly the two conditions, however nested or guarded: overwrite requested and the path exists
+            ok = sorted(pcs) == sorted([("overwrite", True), ("os.path.exists(file_path)", True)]) and norm_text(rm[0].args[0]) == "file_path"
             wt = [c for c in f.calls() if isinstance(c.func, ast.Attribute) and c.func.attr == "writeto"]
-            ok = ok and wt and rm[0].lineno < wt[0].lineno and norm_text(wt[0].args[0]) == "file_path"
+            order = {id(n_): k_ for k_, n_ in enumerate(f.body_nodes())}
+            ok = ok and wt and order.get(id(rm[0]), 0) < order.get(id(wt[0]), -1) and norm_text(wt[0].args[0]) == "file_path"
         ctx.ob("C16.overwrite", wk + ":remove", ok, where=f, node=rm[0] if rm else f.node, construct=det, message="the existing file must be removed, before writing, exactly when overwrite is requested and the path exists")
         mk = [c for c in f.calls() if norm_text(c.func) in ("os.makedirs", "os.mkdir")]
         for c in mk:
